@@ -51,9 +51,27 @@ type Closure struct {
 type Str struct {
 	s string
 	c []*Term // nil: concrete
+	// alias != nil: the string was made by unsafe.String and shares these byte
+	// cells with a slice; its contents are re-read from them at every use.
+	alias []Value
+}
+
+// fix refreshes an aliasing string from the bytes it shares.
+func (s *Str) fix() {
+	if s.alias == nil {
+		return
+	}
+	c := make([]*Term, len(s.alias))
+	for i, v := range s.alias {
+		c[i] = v.(*Term)
+	}
+	s.c = c
 }
 
 func (s *Str) Len() int {
+	if s.alias != nil {
+		return len(s.alias)
+	}
 	if s.c != nil {
 		return len(s.c)
 	}
@@ -101,6 +119,7 @@ func concKey(v Value) (string, bool) {
 		}
 		return "", false
 	case *Str:
+		v.fix()
 		if v.c == nil {
 			return "s" + v.s, true
 		}
@@ -159,6 +178,7 @@ func concKey(v Value) (string, bool) {
 }
 
 func strConc(s *Str) (string, bool) {
+	s.fix()
 	if s.c == nil {
 		return s.s, true
 	}
